@@ -25,6 +25,8 @@ import (
 	"sync"
 	"sync/atomic"
 	"time"
+
+	"google.golang.org/grpc/internal/verifhook"
 )
 
 // For overriding in unit tests.
@@ -96,8 +98,10 @@ func (m *Manager) resetIdleTimerLocked(d time.Duration) {
 }
 
 func (m *Manager) resetIdleTimer(d time.Duration) {
+	verifhook.At("idle.r_lock", m)
 	m.idleMu.Lock()
 	defer m.idleMu.Unlock()
+	verifhook.At("idle.r_body", m)
 	m.resetIdleTimerLocked(d)
 }
 
@@ -105,14 +109,17 @@ func (m *Manager) resetIdleTimer(d time.Duration) {
 // configured idle timeout. The channel is considered inactive if there are no
 // ongoing calls and no RPC activity since the last time the timer fired.
 func (m *Manager) handleIdleTimeout() {
+	verifhook.At("idle.t_closed", m)
 	if m.isClosed() {
 		return
 	}
 
+	verifhook.At("idle.t_chk", m)
 	if atomic.LoadInt32(&m.activeCallsCount) > 0 {
 		m.resetIdleTimer(m.timeout)
 		return
 	}
+	verifhook.At("idle.t_act", m)
 
 	// There has been activity on the channel since we last got here. Reset the
 	// timer and return.
@@ -150,6 +157,7 @@ func (m *Manager) handleIdleTimeout() {
 func (m *Manager) tryEnterIdleMode(checkActivity bool) bool {
 	// Setting the activeCallsCount to -math.MaxInt32 indicates to OnCallBegin()
 	// that the channel is either in idle mode or is trying to get there.
+	verifhook.At("idle.t_cas", m)
 	if !atomic.CompareAndSwapInt32(&m.activeCallsCount, 0, -math.MaxInt32) {
 		// This CAS operation can fail if an RPC started after we checked for
 		// activity in the timer handler, or one was ongoing from before the
@@ -160,8 +168,10 @@ func (m *Manager) tryEnterIdleMode(checkActivity bool) bool {
 	// N.B. if we fail to enter idle mode after this, we must re-add
 	// math.MaxInt32 to m.activeCallsCount.
 
+	verifhook.At("idle.t_lock", m)
 	m.idleMu.Lock()
 	defer m.idleMu.Unlock()
+	verifhook.At("idle.t_enter", m)
 
 	if atomic.LoadInt32(&m.activeCallsCount) != -math.MaxInt32 {
 		// We raced and lost to a new RPC. Very rare, but stop entering idle.
@@ -191,12 +201,15 @@ func (m *Manager) EnterIdleModeForTesting() {
 
 // OnCallBegin is invoked at the start of every RPC.
 func (m *Manager) OnCallBegin() {
+	verifhook.At("idle.b_chk", m)
 	if m.isClosed() {
 		return
 	}
 
+	verifhook.At("idle.b_add", m)
 	if atomic.AddInt32(&m.activeCallsCount, 1) > 0 {
 		// Channel is not idle now. Set the activity bit and allow the call.
+		verifhook.At("idle.b_setact", m)
 		atomic.StoreInt32(&m.activeSinceLastTimerCheck, 1)
 		return
 	}
@@ -204,6 +217,7 @@ func (m *Manager) OnCallBegin() {
 	// Channel is either in idle mode or is in the process of moving to idle
 	// mode. Attempt to exit idle mode to allow this RPC.
 	m.ExitIdleMode()
+	verifhook.At("idle.b_setact", m)
 	atomic.StoreInt32(&m.activeSinceLastTimerCheck, 1)
 }
 
@@ -211,8 +225,10 @@ func (m *Manager) OnCallBegin() {
 // internal state.
 func (m *Manager) ExitIdleMode() {
 	// Holds idleMu which ensures mutual exclusion with tryEnterIdleMode.
+	verifhook.At("idle.x_lock", m)
 	m.idleMu.Lock()
 	defer m.idleMu.Unlock()
+	verifhook.At("idle.x_body", m)
 
 	if m.isClosed() || !m.actuallyIdle {
 		// This can happen in three scenarios:
@@ -258,6 +274,7 @@ func (m *Manager) UnsafeSetNotIdle() {
 
 // OnCallEnd is invoked at the end of every RPC.
 func (m *Manager) OnCallEnd() {
+	verifhook.At("idle.e_chk", m)
 	if m.isClosed() {
 		return
 	}
@@ -269,6 +286,7 @@ func (m *Manager) OnCallEnd() {
 	// when the timer callback is in the process of moving the channel to idle
 	// mode, but one or more RPCs come in and complete before the timer callback
 	// can get done with the process of moving to idle mode.
+	verifhook.At("idle.e_dec", m)
 	atomic.AddInt32(&m.activeCallsCount, -1)
 }
 
@@ -278,8 +296,10 @@ func (m *Manager) isClosed() bool {
 
 // Close stops the timer associated with the Manager, if it exists.
 func (m *Manager) Close() {
+	verifhook.At("idle.c_store", m)
 	atomic.StoreInt32(&m.closed, 1)
 
+	verifhook.At("idle.c_lock", m)
 	m.idleMu.Lock()
 	if m.timer != nil {
 		m.timer.Stop()
